@@ -5,7 +5,7 @@ by definition  Seg(s, e) = PS_D(e) - PS_D(s);  numpy.cumsum of row r at column c
 Contract of RaggedArray.cumsum(axis=-1):  cell'(r, c) = PS_D(S(r)+c+1) - PS_D(S(r)),  same row lengths.
 Integer data are mathematical integers here (no overflow: assumption, listed).
 The subtraction of the per-row offset column goes through RaggedArray.__array_ufunc__ (contract of C04, proved in
-vf.proofs.ufunc) and RaggedArray._broadcast_rows (replaced by its contract: bounded stand-in)."""
+vf.proofs.ufunc) and RaggedArray._broadcast_rows (replaced by its contract, proved in vf.proofs.broadcast)."""
 import numpy as np
 import z3
 
@@ -55,7 +55,7 @@ class Cumsum(Family):
     name = "RaggedArray.cumsum"
     qualname = "npstructures.raggedarray:RaggedArray.cumsum"
     serves = ["C07", "C19"]
-    assumed = ["numpy.cumsum = prefix sums", "numpy.insert(a, 0, 0)", "callee contract RaggedArray._broadcast_rows (bounded stand-in)",
+    assumed = ["numpy.cumsum = prefix sums", "numpy.insert(a, 0, 0)", "callee contract RaggedArray._broadcast_rows (proved: RaggedShape.broadcast_values / _raw_broadcast)",
                "integer data do not overflow (mathematical integers)"]
 
     def kinds(self):
@@ -140,7 +140,7 @@ class RowAccumulate(Family):
     name = "RaggedArray._row_accumulate"
     qualname = "npstructures.raggedarray:RaggedArray._row_accumulate"
     serves = ["C07", "C19"]
-    assumed = ["ufunc.accumulate(add) = prefix sums", "numpy.append(a, 0)", "callee contract RaggedArray._broadcast_rows (bounded stand-in)",
+    assumed = ["ufunc.accumulate(add) = prefix sums", "numpy.append(a, 0)", "callee contract RaggedArray._broadcast_rows (proved: RaggedShape.broadcast_values / _raw_broadcast)",
                "integer data do not overflow (mathematical integers)"]
 
     def kinds(self):
